@@ -130,6 +130,7 @@ type vSpec struct {
 	ski       []byte // nil: library default (SHA-1 of the key for CAs, none for leaves)
 	akiMode   int
 	aki       []byte
+	rawAKI    []byte // the authorityKeyIdentifier extension value, verbatim (forms other than the bare key identifier)
 	poison    int
 	poison2   int // a second extension with the poison OID (the fork's parser does not refuse duplicates)
 	customExt bool
@@ -175,6 +176,9 @@ func vIssue(s vSpec) *vCert {
 		if ext, ok := vPoisonExt(pz); ok {
 			tmpl.ExtraExtensions = append(tmpl.ExtraExtensions, ext)
 		}
+	}
+	if s.rawAKI != nil {
+		tmpl.ExtraExtensions = append(tmpl.ExtraExtensions, pkix.Extension{Id: []int{2, 5, 29, 35}, Value: s.rawAKI})
 	}
 	if s.customExt {
 		tmpl.ExtraExtensions = append(tmpl.ExtraExtensions, pkix.Extension{Id: vOIDCustom, Critical: false, Value: []byte{4, 1, 7}})
